@@ -46,7 +46,7 @@ func init() {
 			}
 			if r.Chance(0.3) {
 				for k := r.Range(1, 3); k > 0; k-- {
-					p.Faults = append(p.Faults, &Fault{Op: "get", Prefix: "com/", Nth: r.Range(1, 12)})
+					p.Faults = append(p.Faults, &Fault{Op: Pick(r, []string{"get", "get", "get", "exist", "read", "any"}), Prefix: "com/", Nth: r.Range(1, 12)})
 				}
 				for k := r.Range(3, 10); k > 0; k-- {
 					switch r.Intn(3) {
